@@ -70,12 +70,12 @@ def run(prop, tier):
             for s in SS:
                 jobs.append((name, off, s, [es, '--suite', s, '--tier', ltier, '--off', str(off)]))
     if tier == 'thorough':
-        # the heavy suites: the quick lattice (sliced) at offsets 0, 1, 3, 4, the lite lattice at the other four offsets
+        # the heavy suites: the quick lattice (sliced) at offsets 0 and 3, the lite lattice at the other six offsets
         def lite(c):
             c = list(c); c[c.index('--tier') + 1] = 'lite'; return c
         jobs = [j for j in jobs if j[2] not in ('C01', 'C02')] + \
-               [(n, o, s, c + ['--slice', '%d/4' % k]) for (n, o, s, c) in jobs if s in ('C01', 'C02') and o in (0, 1, 3, 4) for k in range(4)] + \
-               [(n, o, s, lite(c)) for (n, o, s, c) in jobs if s in ('C01', 'C02') and o not in (0, 1, 3, 4)]
+               [(n, o, s, c + ['--slice', '%d/4' % k]) for (n, o, s, c) in jobs if s in ('C01', 'C02') and o in (0, 3) for k in range(4)] + \
+               [(n, o, s, lite(c)) for (n, o, s, c) in jobs if s in ('C01', 'C02') and o not in (0, 3)]
     jobs.sort(key=lambda j: (j[2] in ('C01', 'C02'), j[2] in ('C12', 'C17', 'C05')))
     env = dict(os.environ, UBSAN_OPTIONS='print_stacktrace=1:halt_on_error=0')
 
@@ -144,7 +144,7 @@ def run(prop, tier):
                                   'detail': '%s of %s through a pointer that is only byte aligned, in %s (PDU offsets %s)' % (kind, typ, fn, sorted(offsets)), 'tag': ''}
     res.counters['states'] = res.counters.get('states', 0)
     core.finish('C15', tier, t0, res,
-                rule='configurations = {gcc,clang} x {-O0,-O1,-O2,-O3,-Os} x PDU start at a 16-byte boundary + {0..7} = 80, each running the %s lattices (thorough: C01 and C02 with the quick lattice at offsets 0,1,3,4 and the lite lattice elsewhere) of C01 C02 C04 C05 C06 C07 C08 C09 C10 C12 C17 against the reference model (so all configurations agree with each other); transcripts compared between worlds per offset; a failure present in all configurations is not a placement dependence (it is reported by its own property); plus clang -O0/-O1/-Os -fsanitize=alignment worlds over the same cases x 8 offsets, every misaligned-access report keyed by function/type/direction' % ltier,
+                rule='configurations = {gcc,clang} x {-O0,-O1,-O2,-O3,-Os} x PDU start at a 16-byte boundary + {0..7} = 80, each running the %s lattices (thorough: C01 and C02 with the quick lattice at offsets 0 and 3 and the lite lattice elsewhere) of C01 C02 C04 C05 C06 C07 C08 C09 C10 C12 C17 against the reference model (so all configurations agree with each other); transcripts compared between worlds per offset; a failure present in all configurations is not a placement dependence (it is reported by its own property); plus clang -O0/-O1/-Os -fsanitize=alignment worlds over the same cases x 8 offsets, every misaligned-access report keyed by function/type/direction' % ltier,
                 bounds={'worlds': [w[0] + w[1] for w in WORLDS], 'offsets': offs, 'lattice': ltier, 'explorer_runs': len(jobs), 'transcript_groups_compared': ntr},
                 assumptions=['only the PDU moves; arrays owned by the caller (VSS element arrays, result objects) stay naturally aligned', 'x86-64 host: a misaligned access does not trap here, which is why the alignment-sanitizer world is part of the check'],
                 recipe={'engine': 'c15'}, extra_cov={'failures_identical_in_all_configurations': general[:20], 'alignment_reports': len(align)})
